@@ -1,4 +1,7 @@
 import Martian.PostProcess
+import Proofs.PostProcessDests
+import Proofs.PostProcessChecked
+import Proofs.PostProcessRecord
 import Gen.Facts
 import Driver.Util
 
@@ -8,6 +11,7 @@ import Driver.Util
 * mode     `p` = one parameter through `moveOut` (value = its JSON value),
            `o2` = `processStructOuts` twice on the same record (interrupted post-process + restart),
            `o` = `processStructOuts` (value = the `_outs` object),
+           `x` = the record `content_preserved_record` promises (`pureOuts (expectVal fs)`),
            `a`/`m` = `postProcess` of a top-level call mapped over an array / a typed map
 * dimAware `g` = the regenerated fact, `t`/`f` = forced
 * ps, outsPath: hex of the path string
@@ -15,6 +19,8 @@ import Driver.Util
 * Ty       `s` | `f <hex ext>` | `a <extraDims> <Ty>` | `m <Ty>` | `t <n> {<hex id> <hex outName> <Ty>}`
 * value    `n` | `l <hex>` | `q <hex>` | `A <n> {J}` | `O <n> {<hex key> J}`
 * fs       `<n> {<hex path> (F<content>|D|La<hex path>|Lr<hex rel>)}`
+In the `m` modes the per-key directory is `joinKey outs key` (= `path.Join`).
+`C13.keydirs <outsPath> <n> {<hex key>}`: the per-key directories and whether the key set is separable.
 Reply: `<hex of the rewritten JSON text> <TAB> <entries path=kind joined by ,>`.
 Tokens are separated by single spaces.
 -/
@@ -164,6 +170,11 @@ def handle (op : String) (args : List String) : Option String :=
     let r ← (match mode, params, v with
       | "p", [(id, on, ty)], v => some (moveOut da ps ty id on v outs fs)
       | "o", params, v => some (processStructOuts da ps params v outs fs)
+      | "x", params, v =>
+        -- the record content_preserved_record promises when `Clean` holds: every file leaf
+        -- replaced by `expectVal` judged in the initial file system; no file-system effect
+        let kvs := match v with | .obj kvs => kvs | _ => []
+        some (J.obj (pureOuts (expectVal fs) params kvs outs), fs)
       | "o2", params, v =>
         -- post-processing interrupted before `_outs` was rewritten, then run again on the same record
         some (processStructOuts da ps params v outs (processStructOuts da ps params v outs fs).2)
@@ -199,6 +210,57 @@ def handle (op : String) (args : List String) : Option String :=
     match parse (emit v) with
     | some v' => pure ("some " ++ strHex (renderJ v'))
     | none => pure "none"
+  | "keydirs", [outs, keys] => do
+    -- fork keys of a top-level call mapped over a typed map: `<n> {<hex key>}` ↦
+    -- `<separable> <TAB> <hex dir>,…` and per key `legalName`
+    let outs := pathOf (← hexStr outs)
+    let ks ← runP (do
+      let n ← pNat
+      let mut ks := []
+      for _ in [0:n] do
+        let k ← pStr
+        ks := k :: ks
+      pure ks.reverse) keys
+    pure (boolStr (keysSeparable outs ks) ++ "\t" ++
+      ",".intercalate (ks.map fun k => strHex (renderPath (joinKey outs k)) ++ ":" ++ boolStr (legalName k)))
+  | "hyp", [ps, outs, params, value, fs] => do
+    -- the decidable hypotheses of the global theorems on one real input:
+    -- wfParams (dest_injective, content_preserved) and cleanB (content_preserved), number of leaves
+    let ps := pathOf (← hexStr ps)
+    let outs := pathOf (← hexStr outs)
+    let params ← runP pParams params
+    let v ← runP pJ value
+    let fs ← runP pFS fs
+    let kvs := match v with | .obj kvs => kvs | _ => []
+    let ls := leavesRec params kvs outs
+    pure ("wf=" ++ boolStr (wfParams params) ++ " clean=" ++ boolStr (cleanB ps outs fs ls) ++
+      " leaves=" ++ toString ls.length)
+  | "keysok", [params, value] => do
+    -- the model's reading of the verification gate on a whole record
+    let params ← runP pParams params
+    let v ← runP pJ value
+    pure (boolStr (recordKeysVerified params v))
+  | "outname", [ty, id, on] => do
+    -- StructMember.GetOutFilename for a member / map entry / array element `id` of type `ty`
+    let ty ← runP pTy ty
+    pure (strHex (outFilename ty (← hexStr id) (← hexStr on)))
+  | "wcut", [w, old, new, k] => do
+    -- a record write cut after `k` units of progress: `a` = writeAtomicAt (temp file, rename),
+    -- `i` = os.WriteFile in place; old = `N` (no record yet) | `S<hex>`; reply: record and `.tmp` sibling
+    let w ← (match w with | "a" => some RecordWriter.atomic | "i" => some RecordWriter.inplace | _ => none)
+    let dec : String → Option (Option (List UInt8)) := fun t =>
+      if t == "N" then some none
+      else if t.startsWith "S" then (bytesOfHex (t.drop 1).toString).map some
+      else none
+    let old ← dec old
+    let new ← bytesOfHex new
+    let k ← k.toNat?
+    let target : Path := ["d", "_outs"]
+    let fs : BFS := fun q => if q = target then old else none
+    let fs' := writeCut w fs target new k
+    let enc : Option (List UInt8) → String := fun o =>
+      match o with | none => "N" | some b => "S" ++ hexOfBytes b
+    pure (enc (fs' target) ++ "\t" ++ enc (fs' (tmpPath target)))
   | "dimaware", [] => pure (boolStr Gen.postProcessDimAware)
   | "nodup", [members] => do
     -- the compile-time duplicate-output-name check on one member list
